@@ -51,6 +51,8 @@ func init() {
 			{ID: "C01-R23", Title: "table indexes fit their 16-bit operand", Floor: 2, Run: tableIndexesFitTheirOperand},
 			{ID: "C01-R24", Title: "scratch buffers stay in the VM", Floor: 1, Run: scratchBuffersStayInTheVM},
 			{ID: "C01-R25", Title: "operator precedence fixed before advancing (shared with C20-R5)", Floor: 2, Run: c20r5},
+			{ID: "C01-R26", Title: "float operands yield floats", Floor: 2, Run: floatOperandsYieldFloats},
+			{ID: "C01-R27", Title: "the partial flag is for call stages only", Floor: 1, Run: thePartialFlagIsForCallStagesOnly},
 		},
 	})
 }
